@@ -131,9 +131,12 @@ def audit(case, seq, data: bytes) -> list[tuple[str, str]]:
         for i in range(1, min(len(rows), len(decoded))):
             slots = "spo" if rows[i]["kind"] == "triple" else "spog"
             for j, slot in enumerate(slots):
-                if decoded[i][j] == decoded[i - 1][j] and slot not in rows[i]["unset"]:
+                t = decoded[i][j]
+                if t[0] == "L" and t[2] is None and t[3] is None:
+                    continue  # (plain on the wire: "x" and "x"^^xsd:string are two rdflib terms)
+                if t == decoded[i - 1][j] and slot not in rows[i]["unset"]:
                     fails.append(("repeat-not-elided",
-                                  f"statement {i} slot {slot} ({decoded[i][j]}) equals the previous "
+                                  f"statement {i} slot {slot} ({t}) equals the previous "
                                   "one but is sent"))
         seq = [T.norm_st(x) for x in decoded]
     if cls == "graph" and not rdflib_api:
@@ -192,6 +195,46 @@ def longrun_shard(job) -> dict:
     return acc.out()
 
 
+def midns_shard(job) -> dict:
+    """statement, namespace_declaration(), statement on one stream (public calls): the second
+    statement still omits what it shares with the first."""
+    import io  # noqa: PLC0415
+
+    from mc import drivers as DR  # noqa: PLC0415
+    from pyjelly.serialize.ioutils import write_delimited  # noqa: PLC0415
+
+    _, api, cls = job
+    DR.ensure_rdflib_plugin()
+    acc = pool.Acc()
+    alpha = AL.alphabet("repeat", 3 if cls == "triple" else 4)
+    for i in range(6):
+        for j in range(6):
+            seq = [alpha[i], alpha[j]]
+            if api == "rdflib" and not all(T.is_rdf11(x) for x in seq):
+                continue
+            case = {"family": "midns", "api": api, "cls": cls, "preset": [8, 2, 1],
+                    "delimited": True, "ns": True, "seq": [i, j]}
+            acc.evals += 1
+            acc.nontrivial += 1
+            opts = DR.make_options(cls, (8, 2, 1), 250, True, ns=True,
+                                   generalized=api == "generic", rdf_star=api == "generic")
+            stream = DR.g_stream(cls, opts) if api == "generic" else DR.r_stream(cls, opts)
+            conv = T.st_to_generic if api == "generic" else T.st_to_rdflib
+            stream.enroll()
+            try:
+                for k, st in enumerate(seq):
+                    (stream.triple if cls == "triple" else stream.quad)(conv(st))
+                    if k == 0:
+                        stream.namespace_declaration("mid", "http://mid.example/ns#")
+                out = io.BytesIO()
+                write_delimited(stream.flow.to_stream_frame(), out)
+            except Exception as e:  # noqa: BLE001
+                judge(case, seq, None, e, acc)
+                continue
+            judge(case, seq, out.getvalue(), None, acc)
+    return acc.out()
+
+
 def ns_shard(job) -> dict:
     """Streams that carry namespace declarations (C14's space): the IRI of a declaration goes
     through the same tables and delta rules as any other IRI."""
@@ -235,6 +278,10 @@ def shard(job) -> dict:
         out = ns_shard(job)
         out["extra"] = {}
         return out
+    if job[0] == "MN":
+        out = midns_shard(job)
+        out["extra"] = {}
+        return out
     if job[0] == "L":
         out = longrun_shard(job)
         out["extra"] = {}
@@ -266,7 +313,14 @@ def run(ctx) -> None:
     expected += sum((j[5] - j[4]) * len(c14.stmt_seqs(j[2])) for j in njobs)
     ljobs = [("L", w, n) for w in ("stream_frames_gen", "stream_frames_sink") for n in (4096, 4097, 10000)]
     expected += len(ljobs)
-    njobs = njobs + ljobs
+    mjobs = [("MN", api, cls) for api in ("generic", "rdflib") for cls in ("triple", "quad")]
+    alpha3 = AL.alphabet("repeat", 3)
+    alpha4 = AL.alphabet("repeat", 4)
+    for _, api, cls in mjobs:
+        al = alpha3 if cls == "triple" else alpha4
+        ok = [x for x in al if api == "generic" or T.is_rdf11(x)]
+        expected += len(ok) ** 2
+    njobs = njobs + ljobs + mjobs
     merged = pool.merge(pool.pmap(shard, jobs + rjobs + njobs))
     ctx.add(merged)
     if merged["evals"] != expected:
@@ -293,6 +347,9 @@ def run(ctx) -> None:
 
 
 def replay(case: dict) -> list:
+    if case.get("family") == "midns":
+        out = midns_shard(("MN", case["api"], case["cls"]))
+        return [v["what"] for v in out["violations"] if v["case"]["seq"] == case["seq"]]
     if case.get("family") == "longrun":
         out = longrun_shard(("L", case["writer"], case["n"]))
         return [v["what"] for v in out["violations"]]
